@@ -143,21 +143,22 @@ func (r *FileRestorer) RestoreFile(file *dst.File) (*ast.File, error) {
 		f.Comments = append(f.Comments, cg)
 	}
 
-	ff := r.Fset.AddFile(r.Name, r.base, r.fileSize())
-	if !ff.SetLines(r.lines) {
-		panic("ff.SetLines failed")
-	}
-
 	if r.Extras {
 		// Sometimes new nodes are created here (e.g. in RangeStmt the "Object" is an AssignStmt
 		// which never occurs in the actual code). These shouldn't have position information but
-		// perhaps it doesn't matter?
+		// perhaps it doesn't matter? They are restored before the file is added to the FileSet, so
+		// that the positions they do get are inside the file.
 		for o, dn := range r.nodeDecl {
 			o.Decl = r.restoreNode(dn, "", "", "", true)
 		}
 		for o, dn := range r.nodeData {
 			o.Data = r.restoreNode(dn, "", "", "", true)
 		}
+	}
+
+	ff := r.Fset.AddFile(r.Name, r.base, r.fileSize())
+	if !ff.SetLines(r.lines) {
+		panic("ff.SetLines failed")
 	}
 
 	return f, nil
